@@ -813,7 +813,12 @@ impl fmt::Display for Constraint {
             format!("{}: ", self.name)
         };
         if self.is_logic_assertion {
-            write!(f, "{}{}", name, self.lhs)
+            // an asserted constant is written as the Boolean literal it was
+            match &self.lhs {
+                Exp::Number(value) if *value == 1.0 => write!(f, "{}true", name),
+                Exp::Number(value) if *value == 0.0 => write!(f, "{}false", name),
+                lhs => write!(f, "{}{}", name, lhs),
+            }
         } else {
             write!(
                 f,
